@@ -46,6 +46,7 @@ type Contract struct {
 	NoSafety bool
 	Auto     bool
 	AutoInv  *Clause // clause used as invariant of every loop (sweep)
+	CallSites map[string][]*Clause // callee name -> obligations at every call of it inside this function
 	File     string
 	Line     int
 }
@@ -173,6 +174,62 @@ func (p *Prog) loadContractFile(path string) error {
 			lastClause = nil
 			continue
 		}
+		if strings.HasPrefix(line, "lemma") {
+			// lemma[name] props Cxx Cyy : expr
+			m := regexp.MustCompile(`^lemma\[([\w.-]+)\]\s+props((?:\s+C\d+)+)\s*:\s*(.*)$`).FindStringSubmatch(line)
+			if m == nil {
+				return fmt.Errorf("%s:%d: bad lemma", path, lineNo)
+			}
+			c, _ := mkClause("lemma", m[1], m[3])
+			c.Props = strings.Fields(m[2])
+			p.lemmas = append(p.lemmas, c)
+			pending = append(pending, c)
+			lastClause = c
+			cur = nil
+			curChan = nil
+			continue
+		}
+		if strings.HasPrefix(line, "ghost func ") {
+			// ghost func name(T1, T2) R
+			m := regexp.MustCompile(`^ghost func (\w+)\(([^)]*)\)\s*([\w.*\[\]]+)$`).FindStringSubmatch(line)
+			if m == nil {
+				return fmt.Errorf("%s:%d: bad ghost func", path, lineNo)
+			}
+			var ats []string
+			for _, a := range strings.Split(m[2], ",") {
+				if a = strings.TrimSpace(a); a != "" {
+					ats = append(ats, a)
+				}
+			}
+			p.ghostFunDecls = append(p.ghostFunDecls, ghostFunDecl{m[1], ats, m[3]})
+			continue
+		}
+		if strings.HasPrefix(line, "axiom ") {
+			m := regexp.MustCompile(`^axiom\[(\w+)\]\s+(.*)$`).FindStringSubmatch(line)
+			if m == nil {
+				return fmt.Errorf("%s:%d: bad axiom (axiom[ghostfun] expr)", path, lineNo)
+			}
+			c, _ := mkClause("axiom", m[1], m[2])
+			p.axioms = append(p.axioms, c)
+			pending = append(pending, c)
+			lastClause = c
+			cur = nil
+			curChan = nil
+			continue
+		}
+		if strings.HasPrefix(line, "guarded ") {
+			// guarded Type.lockField: f1, f2, ...
+			m := regexp.MustCompile(`^guarded ([\w.]+)\s*:\s*(.*)$`).FindStringSubmatch(line)
+			if m == nil {
+				return fmt.Errorf("%s:%d: bad guarded declaration", path, lineNo)
+			}
+			var fields []string
+			for _, f := range strings.Split(m[2], ",") {
+				fields = append(fields, strings.TrimSpace(f))
+			}
+			p.guardedBy[prefix+m[1]] = fields
+			continue
+		}
 		if strings.HasPrefix(line, "ghost field ") {
 			// ghost field Type.name gotype
 			f := strings.Fields(line)
@@ -258,6 +315,22 @@ func (p *Prog) loadContractFile(path string) error {
 			c, _ := mkClause("define", "", strings.TrimSpace(line[len("define "):]))
 			cur.PureDef = c
 			cur.Pure = true
+			pending = append(pending, c)
+			lastClause = c
+		case strings.HasPrefix(line, "callsite "):
+			m := regexp.MustCompile(`^callsite\s+([\w.]+)\s*:\s*(.*)$`).FindStringSubmatch(line)
+			if m == nil {
+				return fmt.Errorf("%s:%d: bad callsite clause", path, lineNo)
+			}
+			cm := reClause.FindStringSubmatch(m[2])
+			if cm == nil || cm[1] != "requires" {
+				return fmt.Errorf("%s:%d: callsite clause must be `requires`", path, lineNo)
+			}
+			c, _ := mkClause("callsite", cm[2], cm[3])
+			if cur.CallSites == nil {
+				cur.CallSites = map[string][]*Clause{}
+			}
+			cur.CallSites[m[1]] = append(cur.CallSites[m[1]], c)
 			pending = append(pending, c)
 			lastClause = c
 		case strings.HasPrefix(line, "loop "):
